@@ -50,6 +50,7 @@ func loadProp(verif, id string) (*PropConfig, error) {
 type Baseline struct {
 	Claimed    map[string]bool
 	NotClaimed map[string]bool
+	All        bool // rebaselining: give every obligation the full treatment
 }
 
 func loadBaseline(path string) (*Baseline, error) {
@@ -186,7 +187,6 @@ type CheckOutcome struct {
 	SMTBytes   int
 }
 
-var solverSem = make(chan struct{}, 16)
 
 // checkFunction verifies one function for a property and appends results.
 func (g *Gen) checkFunction(name string, p *PropConfig, bl *Baseline, tier string, work string, out *CheckOutcome, mu *sync.Mutex) {
@@ -244,7 +244,7 @@ func (g *Gen) checkFunction(name string, p *PropConfig, bl *Baseline, tier strin
 		if !p.wantsKind(o.Kind, trustedPre) {
 			continue
 		}
-		if bl.Claimed[o.ID] {
+		if bl.Claimed[o.ID] || bl.All {
 			claimed = append(claimed, o)
 		} else {
 			others = append(others, o)
@@ -277,18 +277,16 @@ func (g *Gen) checkFunction(name string, p *PropConfig, bl *Baseline, tier strin
 			act[o] = true
 		}
 		f := writeQuery(dir, "joint", emit(act))
-		for _, s := range []string{"z3-new", "z3-new-noext"} {
-			r := run(s, f, timeout)
-			if r.Answer == "unsat" {
-				jointDone = true
-				for _, o := range claimed {
-					or := mk(o)
-					or.Answer, or.Solver, or.Secs, or.Joint = "unsat", r.Solver, r.Secs/float64(len(claimed)), true
-				}
-				break
-			}
-			if r.Answer == "sat" {
-				break
+		jt := 4 * time.Second
+		if tier == "thorough" {
+			jt = 15 * time.Second
+		}
+		r := race(f, jt, []string{"z3-new", "z3-new-noext"})
+		if r.Answer == "unsat" {
+			jointDone = true
+			for _, o := range claimed {
+				or := mk(o)
+				or.Answer, or.Solver, or.Secs, or.Joint = "unsat", r.Solver, r.Secs/float64(len(claimed)), true
 			}
 		}
 		os.Remove(f)
@@ -301,22 +299,7 @@ func (g *Gen) checkFunction(name string, p *PropConfig, bl *Baseline, tier strin
 			go func() {
 				defer wg.Done()
 				f := writeQuery(dir, o.ID, emit(map[*Oblig]bool{o: true}))
-				var best SolverRes
-				best.Answer = "unknown"
-				order := solverOrder
-				for _, s := range order {
-					r := run(s, f, timeout)
-					if r.Answer == "sat" && (strings.Contains(s, "noext") || strings.Contains(s, "snf")) {
-						r.Answer = "unknown"
-					}
-					if r.Answer == "unsat" || r.Answer == "sat" {
-						best = r
-						break
-					}
-					if best.Solver == "" || r.Answer == "unknown" {
-						best = r
-					}
-				}
+				best := race(f, timeout, solverOrder)
 				if tier == "thorough" && best.Answer == "unsat" {
 					// cross-check with the other solvers: a definite disagreement is a tool error
 					for _, s := range []string{"z3-new", "cvc5", "z3"} {
@@ -455,6 +438,9 @@ func cmdCheck(args []string) {
 	if blErr != nil && !*rebase {
 		fmt.Println("tool error: no baseline:", blErr)
 		os.Exit(2)
+	}
+	if *rebase {
+		bl.All = true
 	}
 	work := filepath.Join(env("GOVC_WORK", filepath.Join(os.TempDir(), "govc-work")), id+"-"+strconv.Itoa(os.Getpid()))
 	defer os.RemoveAll(work)
